@@ -105,6 +105,12 @@ func sanitizersForAttributeValue(c context) ([]string, error) {
 		return reverse(appendIfNotEmpty(ret, sanitizer)), nil
 	}
 	urlAttrValPrefix := c.attr.value
+	// The prefix is ambiguous if the branches of a conditional left different static text in the
+	// attribute value. This includes the case where the recorded prefix is empty: the other branch
+	// may have written text (e.g. "java") that the value of this action completes into a scheme.
+	if c.attr.ambiguousValue {
+		return nil, fmt.Errorf("actions must not occur after an ambiguous URL prefix in the %q attribute value context of a %q element", c.attr.name, c.element.name)
+	}
 	if urlAttrValPrefix == "" {
 		if c.attr.dynamicStart {
 			// An earlier action already produced the start of this URL. Each action is sanitized
@@ -117,9 +123,6 @@ func sanitizersForAttributeValue(c context) ([]string, error) {
 		return reverse(appendIfNotEmpty(ret, normalizeURLFuncName, sanitizer)), nil
 	}
 	// Action occurs after a URL or TrustedResourceURL prefix.
-	if c.attr.ambiguousValue {
-		return nil, fmt.Errorf("actions must not occur after an ambiguous URL prefix in the %q attribute value context of a %q element", c.attr.name, c.element.name)
-	}
 	validator, ok := urlPrefixValidators[sc0]
 	if !ok {
 		return nil, fmt.Errorf("cannot validate attribute value prefix %q in the %q sanitization context", c.attr.value, sc0)
